@@ -200,14 +200,11 @@ func (l *orderColumnsRow) compareBytes(lval, rval Column, reverse bool) int {
 		lbval []byte
 		rbval []byte
 	)
-	switch lval.(type) {
-	case []byte:
-		lbval = lval.([]byte)
-		rbval = rval.([]byte)
-	case string:
-		lbval = []byte(lval.(string))
-		rbval = []byte(rval.(string))
-	default:
+	// Text columns may hold string in one row and []byte in another
+	var lok, rok bool
+	lbval, lok = convertToByteArray(lval)
+	rbval, rok = convertToByteArray(rval)
+	if !lok || !rok {
 		return 0
 	}
 	if reverse {
